@@ -141,7 +141,7 @@ struct qs_agent {
 				FRG_ASSERT(_acked_qs_counter + 1 == ctr);
 
 				// Now ack the QS.
-				if(_dom->_agents_to_ack.fetch_sub(1, std::memory_order_relaxed) == 1) {
+				if(_dom->_agents_to_ack.fetch_sub(1, std::memory_order_acq_rel) == 1) {
 					_dom->_agents_to_ack.store(_dom->_num_agents, std::memory_order_relaxed);
 					_dom->_qs_counter.store(ctr + 1, std::memory_order_release);
 				}
@@ -173,7 +173,7 @@ struct qs_agent {
 				FRG_ASSERT(_acked_qs_counter + 1 == ctr);
 
 				// Now ack the QS.
-				if(_dom->_agents_to_ack.fetch_sub(1, std::memory_order_relaxed) == 1) {
+				if(_dom->_agents_to_ack.fetch_sub(1, std::memory_order_acq_rel) == 1) {
 					auto desired = _dom->_desired_qs_counter.load(std::memory_order_relaxed);
 					if(desired > ctr) {
 						lock_guard<M> lock(_dom->_mutex);
@@ -200,7 +200,7 @@ struct qs_agent {
 				break;
 		}
 
-		while(_dom->_qs_counter.load(std::memory_order_relaxed) < target) {
+		while(_dom->_qs_counter.load(std::memory_order_acquire) < target) {
 			quiescent_state();
 		}
 	}
@@ -221,7 +221,7 @@ struct qs_agent {
 	}
 
 	void run() {
-		auto ctr = _dom->_qs_counter.load(std::memory_order_relaxed);
+		auto ctr = _dom->_qs_counter.load(std::memory_order_acquire);
 		while(!_pending.empty()) {
 			auto node = _pending.front();
 			if(ctr < node->_target_qs_counter)
